@@ -113,6 +113,10 @@ type resetSpec struct {
 	Entries []string          // reuse entry function keys
 	Exempt  map[string]string // field -> reason
 	Ctors   []string          // constructor function keys (writes there do not make a field dirty)
+	// AllExits: the entry is the only writer of the type's fields and callers may go on using the object after the entry
+	// reported an error; then every field the entry owns must be (re)written on EVERY path to a return, error returns included,
+	// otherwise a rejected input leaves the previous use's state readable.
+	AllExits bool
 	// NotDirtying lists functions whose writes do not count (e.g. the other reuse entries)
 }
 
@@ -190,6 +194,35 @@ func resetRule(c *eng.Ctx, spec resetSpec) {
 		fields = append(fields, f)
 	}
 	sort.Strings(fields)
+	if len(fields) == 0 && spec.AllExits {
+		for _, e := range entries {
+			own := map[string][]ssa.Instruction{}
+			for _, w := range writesIn(p, e, spec.T) {
+				if w.kind == "store" {
+					own[w.field] = append(own[w.field], w.in)
+				}
+			}
+			var names []string
+			for f := range own {
+				names = append(names, f)
+			}
+			sort.Strings(names)
+			c.Check(len(names) > 0, p.FuncKey(e)+"@owns-fields", nil, e, "the reuse entry writes the fields of "+spec.T, "no field store found")
+			for _, f := range names {
+				ws := map[ssa.Instruction]bool{}
+				for _, in := range own[f] {
+					ws[in] = true
+				}
+				at, leak := eng.PathExists(eng.PathQuery{Fn: e,
+					Target:  func(in ssa.Instruction) bool { _, ok := in.(*ssa.Return); return ok && in.Block() != e.Recover },
+					Blocked: func(in ssa.Instruction) bool { return ws[in] }})
+				c.Check(!leak, fmt.Sprintf("%s:%s@every-exit", p.FuncKey(e), f), at, e,
+					"field "+f+" is re-initialised on every path of "+p.FuncKey(e)+" to a return, error returns included (a rejected input does not leave the previous table readable)",
+					"a return is reachable without any write of "+f)
+			}
+		}
+		return
+	}
 	if len(fields) == 0 {
 		c.Check(st.NumFields() > 0, spec.T+"@only-entry-writes", nil, nil, "no field of "+spec.T+" is written outside its reuse entries and constructors (nothing can be left over from a previous use)", "type has no fields")
 		return
